@@ -124,6 +124,7 @@ func genEvSession(ref core.CaseRef, r *rand.Rand) *evCase {
 }
 
 func runC10(ctx *core.Ctx) {
+	evCtx = ctx
 	ctx.SetRule("case = (timeout, MAXOUTOFORDERNESS, 1-4 keys with per-key gap sequences just below/at/above the timeout and ≫, arrival pattern inorder|jitter|late, feed mode) from PRNG(seed,index), closed by a sentinel of a foreign key; " +
 		"in-order cases are additionally fed at 3 speeds and compared. non-trivial = some key has ≥2 sessions expected by the gap rule; distinct by (SQL, rows, feed) hash")
 	ctx.Assume("single producer; block strategy", "maximality of sessions is not demanded (the statement does not)")
